@@ -21,7 +21,7 @@ META = {
                    "it only when that data is None; the covering test the prefix filter is written in (Prefix::covers) equals "
                    "range inclusion for every pair of lengths of either family (bit-vector evaluation over GF(2), shared with C13).",
     "not_decided": ["JSON round-trip equality (serde-derived; value equality)"],
-    "trusted_base": ["Prefix's constructors clear the host bits (C13 R-WHO / host-bits guards)", "derived PartialEq of Asn / KeyIdentifier"],
+    "trusted_base": ["Prefix's constructors clear the host bits (C13 R-WHO / host-bits guards)", "derived PartialEq of Asn and of KeyIdentifier (its hand-written PartialEq<T> is decided: byte equality)", "core slice equality"],
 }
 
 SL = "slurm::"
@@ -553,6 +553,8 @@ def run(ctx):
     ctx.rule("R-WHO", "a limit is tested only where the value is built")
     K.check_limit_owners(ctx, f, "rtr::pdu::ProviderAsns::MAX_COUNT",
                          ["repository::aspa::ProviderAsSet::take_from", "rtr::pdu::ProviderAsns::try_from_iter"])
+    # "a BGPsec filter matches a router key iff its SKI equals the key's": the equality the filter is written in
+    K.check_bytes_eq_delegates(ctx, f, "R-SIB", "crypto::keys::KeyIdentifier", "the SKI criterion of the BGPsec filter is this comparison")
     from props.C13 import check_covers_family, check_covers_inclusion
     ctx.rule("R-GRD", "success requires the guard")
     check_covers_family(ctx, f)
